@@ -402,6 +402,16 @@ fn gen_coarse(prop: &str, base_seed: u64, batch: &str, run: u64, rng: &mut Rng) 
                 co.max_patterns = if rng.chance(1, 3) { 12 } else { 6 };
                 co.ordered_pct = 0;
                 ho.max_calls = 16;
+                // one in three of them: nine to twelve methods (past the point where a small-table
+                // representation of the method table would end), clause groups interleaved
+                if rng.chance(1, 3) {
+                    co.pool.extend([M::GenU8, M::GenU16, M::GmU8, M::GmU16, M::GiU8, M::GiU16, M::GnU8, M::GnU16]);
+                    ho.pool.extend([M::GenU8, M::GenU16, M::GmU8, M::GmU16, M::GiU8, M::GiU16, M::GnU8, M::GnU16]);
+                    co.min_methods = 9;
+                    co.max_methods = 12;
+                    co.min_patterns = 2;
+                    co.max_patterns = 4;
+                }
             }
         }
         "C02" => {
@@ -418,6 +428,14 @@ fn gen_coarse(prop: &str, base_seed: u64, batch: &str, run: u64, rng: &mut Rng) 
                 co.min_patterns = 4;
                 co.max_patterns = if rng.chance(1, 2) { 12 } else { 6 };
                 ho.max_calls = 6;
+                if rng.chance(1, 3) {
+                    // nine to twelve methods
+                    co.min_methods = 9;
+                    co.max_methods = 12;
+                    co.min_patterns = 2;
+                    co.max_patterns = 4;
+                    ho.max_calls = 12;
+                }
             }
             co.ordered_pct = 25;
             co.resp_weights = [50, 6, 2, 30, 0, 6, 6];
@@ -425,8 +443,8 @@ fn gen_coarse(prop: &str, base_seed: u64, batch: &str, run: u64, rng: &mut Rng) 
             ho.max_calls = 15;
             ho.finish_weights = [50, 30, 20];
             // generic instantiations share one Trait::method path
-            co.pool.extend([M::GenU8, M::GenU16, M::GmU8, M::GmU16, M::GiU8, M::GiU16]);
-            ho.pool.extend([M::GenU8, M::GenU16, M::GmU8, M::GmU16, M::GiU8, M::GiU16]);
+            co.pool.extend([M::GenU8, M::GenU16, M::GmU8, M::GmU16, M::GiU8, M::GiU16, M::GnU8, M::GnU16]);
+            ho.pool.extend([M::GenU8, M::GenU16, M::GmU8, M::GmU16, M::GiU8, M::GiU16, M::GnU8, M::GnU16]);
         }
         "C04" => {
             co.ordered_pct = 75;
@@ -470,6 +488,27 @@ fn gen_coarse(prop: &str, base_seed: u64, batch: &str, run: u64, rng: &mut Rng) 
         ho.fault_every = *rng.pick(&[3u64, 6, 6, 10]);
     }
     let mut config = gen_config(rng, &co);
+    if prop == "C03" && rng.chance(1, 5) {
+        // a guard at the end of a chain: `.then().panics(..)` after an exact segment; the history is
+        // steered away from reaching it, the trailing then() still asks for one more match
+        let mut spots = vec![];
+        for (ci, c) in config.clauses.iter().enumerate() {
+            // (the instantiations of generic methods are built through `with_types`: one segment only)
+            let generic = matches!(c.m, M::GenU8 | M::GenU16 | M::GmU8 | M::GmU16 | M::GpU8 | M::GpU16 | M::GiU8 | M::GiU16 | M::GnU8 | M::GnU16);
+            if matches!(c.form, crate::spec::Form::NextCall) || generic {
+                continue;
+            }
+            for (pi, p) in c.patterns.iter().enumerate() {
+                if matches!(p.segs.last().map(|s| s.quant), Some(Quant::Once) | Some(Quant::N(1..))) {
+                    spots.push((ci, pi));
+                }
+            }
+        }
+        if !spots.is_empty() {
+            let (ci, pi) = spots[rng.usize(spots.len())];
+            config.clauses[ci].patterns[pi].segs.push(Seg { resp: Resp::Panics, quant: Quant::Unq });
+        }
+    }
     if prop == "C07" && rng.chance(1, 6) {
         // a hand-written matcher that registers no function: reaching it is a loud error
         let unordered: Vec<usize> = (0..config.clauses.len())
